@@ -3,7 +3,7 @@ import CpModel.Finalize
 /-!
   Driver for C06 (response framing).  One case per line, space-separated fields:
 
-    <tools> <page> <ct> <hcl> <hstream> <st> <body> <probe> <req>;<req>;…      hcl = N | <n> (handler's own Content-Length)
+    <tools> <page> <ct> <hcl> <hstream> <st> <body> <probe> <ext> <req>;<req>;…      hcl = N | <n> (handler's own Content-Length)
 
   tools   letters of e(ncode) g(zip) t(etags) c(aching) x(expires) f(latten) s(tream) b(= error_response raises), or `-`
   page    `pt` (default template) | `pc:<hex>` (error_page.default returns these bytes) | `pi:<hex>/<hex>…` (… an iterator)
@@ -12,8 +12,17 @@ import CpModel.Finalize
   body    <K>:<chunk>,<chunk>…   K in B S N L G F X Y;  chunk = b<hex> | t<cp.cp…> | n<hex>/<hex>… | r
   probe   - | <prio>:<act>:<once>   act = e<code> | r<code> | x | w<hex> (rewrite body) | s<code>
   body    may be `shape|shape|…`: the value on the 1st, 2nd, … handler invocation
-  req     <method>,<ae>,<inm>,<im>,<ac>,<ranges>,<cc>,<t>   ranges = N | E | a-b/a-b…
-          cc = - | maxage<n> | nocache | pragma | nostore | badmaxage;  t = logical time (s) of the request
+  ext     `-` or comma-separated: rh<n> (tools.response_headers sets Content-Length n) | acc (tools.accept) |
+          jin (tools.json_in) | noslash (tools.trailing_slash off) | sess (tools.sessions) | av (tools.autovary) |
+          sf<hex> (tools.staticfile on a file with this content) | erc<code>:<hex> (custom error_response) |
+          erx<cp.cp…> (tools.xmlrpc: fault text) | err<code> (error_response raises HTTPRedirect) |
+          xp1 | xp2 | xp3 (tools.expires: secs=0 force / secs=60 no force / secs=0 no force) | mp<B>:<C>:<L> (multipart texts: boundary / content-type /
+          file-length digits, so that the multipart byte count is exact)
+  body    kind R = an XML-RPC method whose marshalled result is the text chunk; nested chunk leaves: <hex> | T<cp.cp…> | R
+  req     <method>,<ae>,<inm>,<im>,<ac>,<ranges>,<cc>,<t>,<proto>,<ims>,<accept>,<noslash>,<entity>
+          ranges = N | E | a-b/a-b…;  cc = - | maxage<n> | nocache | pragma | nostore | badmaxage;
+          t = logical time (s) of the request; proto = 10 | 11; ims / accept / noslash = 0 | 1;
+          entity = - | ok | bad | nolen
 
   Output: one record per request joined by ` | `:
     S=<code> CL=<n|N|None|?> D=<n> E=<clean|nonbytes|raised> ST=<0|1> CA=<0|1> CE=<0|1> CT=<base>/<charset|-> SRC=<src> GZ=<0|1>
@@ -23,12 +32,18 @@ open CpModel CpModel.Finalize
 
 namespace Drv.C06
 
-def pages (custom : Option Body) : Pages :=
+/-- number of decimal digits -/
+def digits (n : Nat) : Nat := (toString n).length
+
+/-- `mp` = (boundary length, content-type length, file length) for the multipart texts of `_serve_fileobj`:
+    part header `--B\r\nContent-type: C\r\nContent-range: bytes a-(z-1)/L\r\n\r\n`, closing `--B--` + `\r\n` -/
+def pages (custom : Option Body) (mp : Nat × Nat × Nat) : Pages :=
   { tmpl := fun _ => List.replicate 700 84
     custom := custom
     redir := fun _ => List.replicate 90 82
-    partHead := fun _ _ => List.replicate 60 80
-    partTail := List.replicate 40 81
+    partHead := fun a z => List.replicate (2 + mp.1 + 16 + mp.2.1 + 23 + digits a + 1 + digits (z - 1) + 1 +
+                                           digits mp.2.2 + 4) 80
+    partTail := List.replicate (mp.1 + 6) 81
     bare := List.replicate 35 66
     z := fun b => List.replicate 10 90 ++ b ++ List.replicate 8 90
     zHead := List.replicate 10 90 }
@@ -58,7 +73,8 @@ def parsePage (s : String) : Option (Option Body) :=
 
 def parseCt (s : String) : Option CtBase :=
   if s == "html" then some .textHtml else if s == "plain" then some .textPlain
-  else if s == "json" then some .appJson else if s == "octet" then some .octet else none
+  else if s == "json" then some .appJson else if s == "octet" then some .octet
+  else if s == "xml" then some .textXml else none
 
 def parseBool (s : String) : Option Bool :=
   if s == "0" then some false else if s == "1" then some true else none
@@ -88,6 +104,12 @@ def parseProbe (s : String) : Option (Option (Nat × ProbeAct × Bool)) :=
     pure (some (p, a, o))
   | _ => none
 
+/-- a leaf of a nested iterator: `<hex>` bytes | `T<cp.cp…>` text | `R` raises -/
+def parseLeaf (x : String) : Option Leaf :=
+  if x == "R" then some .raise
+  else if x.startsWith "T" then (Proto.untext? (let t := (x.drop 1).toString; if t == "" then "-" else t)).map .text
+  else (Proto.unhex? (if x == "" then "-" else x)).map .bytes
+
 def parseChunk (s : String) : Option Chunk :=
   if s == "r" then some .raise
   else if s.startsWith "b" then (Proto.unhex? (let t := (s.drop 1).toString; if t == "" then "-" else t)).map .bytes
@@ -95,7 +117,7 @@ def parseChunk (s : String) : Option Chunk :=
   else if s.startsWith "n" then
     let t := (s.drop 1).toString
     if t == "" then some (.nested []) else
-    ((t.splitOn "/").mapM fun x => Proto.unhex? (if x == "" then "-" else x)).map .nested
+    ((t.splitOn "/").mapM parseLeaf).map .nested
   else none
 
 def parseShape1 (s : String) : Option Shape :=
@@ -112,6 +134,7 @@ def parseShape1 (s : String) : Option Shape :=
     else if k == "F" then pure (.fileV (concat cs))
     else if k == "X" then pure (.staticV (concat cs))
     else if k == "Y" then pure (.fileObjV (concat cs))
+    else if k == "R" then pure (.xmlrpcV firstText)
     else none
   | _ => none
 
@@ -148,6 +171,7 @@ def parseAc (s : String) : Option (List Charset × Bool) :=
   else if s == "star" then some ([.utf8], false)
   else if s == "latin1" then some ([.latin1], false)
   else if s == "ascii" then some ([.ascii, .latin1], false)
+  else if s == "none" then some ([], false)
   else none
 
 def parsePair (p : String) : Option (Nat × Nat) :=
@@ -163,13 +187,56 @@ def parseRanges (s : String) : Option (Option (List (Nat × Nat))) :=
   else if s == "E" then some (some [])
   else ((s.splitOn "/").mapM parsePair).map some
 
+def parseEntity (s : String) : Option Entity :=
+  if s == "-" then some .none else if s == "ok" then some .jsonOk
+  else if s == "bad" then some .jsonBad else if s == "nolen" then some .noLength else none
+
 def parseReq (s : String) : Option Req :=
   match s.splitOn "," with
-  | [m, ae, inm, im, ac, rg, cc, t] => do
+  | [m, ae, inm, im, ac, rg, cc, t, proto, ims, acc, ns, ent] => do
     let (cs, d) ← parseAc ac
+    let h10 ← (if proto == "10" then some true else if proto == "11" then some false else none)
     pure { method := ← parseMethod m, ae := ← parseAe ae, inm := ← parseCond inm, im := ← parseCond im,
-           charsets := cs, dfltOnly := d, ranges := ← parseRanges rg, cc := ← parseCC cc, now := ← t.toNat? }
+           charsets := cs, dfltOnly := d, ranges := ← parseRanges rg, cc := ← parseCC cc, now := ← t.toNat?,
+           http10 := h10, ims := ← parseBool ims, acceptOk := ← parseBool acc, noSlash := ← parseBool ns,
+           entity := ← parseEntity ent }
   | _ => none
+
+/-- the extension field: more tools, and the multipart text lengths -/
+def parseExt1 (acc : Tools × (Nat × Nat × Nat)) (x : String) : Option (Tools × (Nat × Nat × Nat)) :=
+  let (t, mp) := acc
+  if x == "acc" then some ({ t with accept := true }, mp)
+  else if x == "jin" then some ({ t with jsonIn := true }, mp)
+  else if x == "noslash" then some ({ t with noSlashTool := true }, mp)
+  else if x == "sess" then some ({ t with sessions := true }, mp)
+  else if x == "av" then some ({ t with autovary := true }, mp)
+  else if x == "xp1" then some ({ t with expiresCfg := .zeroForce }, mp)
+  else if x == "xp2" then some ({ t with expiresCfg := .secs60 }, mp)
+  else if x == "xp3" then some ({ t with expiresCfg := .zero }, mp)
+  else if x.startsWith "err" then (x.drop 3).toString.toNat?.map fun c => ({ t with errResp := .redirect c }, mp)
+  else if x.startsWith "rh" then (x.drop 2).toString.toNat?.map fun n => ({ t with rhCL := some n }, mp)
+  else if x.startsWith "sf" then
+    (Proto.unhex? (let y := (x.drop 2).toString; if y == "" then "-" else y)).map fun b =>
+      ({ t with staticTool := some b }, mp)
+  else if x.startsWith "erc" then
+    match (x.drop 3).toString.splitOn ":" with
+    | [c, hx] => do
+      let code ← c.toNat?
+      let b ← Proto.unhex? (if hx == "" then "-" else hx)
+      pure ({ t with errResp := .custom code b }, mp)
+    | _ => none
+  else if x.startsWith "erx" then
+    (Proto.untext? (let y := (x.drop 3).toString; if y == "" then "-" else y)).map fun cs =>
+      ({ t with errResp := .xmlrpc cs }, mp)
+  else if x.startsWith "mp" then
+    match (x.drop 2).toString.splitOn ":" with
+    | [a, b, c] => do pure (t, (← a.toNat?, ← b.toNat?, ← c.toNat?))
+    | _ => none
+  else none
+
+def parseExt (t : Tools) (s : String) : Option (Tools × (Nat × Nat × Nat)) :=
+  if s == "-" then some (t, (36, 10, 2)) else
+  (s.splitOn ",").foldlM parseExt1 (t, (36, 10, 2))
 
 def showCl : Option HVal → String
   | none => "N"
@@ -180,7 +247,7 @@ def showCl : Option HVal → String
 def showCt : Option HVal → String
   | some (.ctype b cs) =>
     (match b with | .textHtml => "html" | .textPlain => "plain" | .appJson => "json" | .octet => "octet"
-                  | .multipart => "multipart") ++ "/" ++
+                  | .multipart => "multipart" | .textXml => "xml") ++ "/" ++
     (match cs with | none => "-" | some .utf8 => "utf8" | some .latin1 => "latin1" | some .ascii => "ascii")
   | none => "N"
   | _ => "?"
@@ -200,16 +267,17 @@ def showObs (o : Obs) : String :=
 
 def step (line : String) : String :=
   match Proto.fields line with
-  | [tools, page, ct, hcl, hstream, st, body, probe, reqs] =>
+  | [tools, page, ct, hcl, hstream, st, body, probe, ext, reqs] =>
     let r : Option String := do
       let t0 ← parseTools tools
-      let t : Tools := { t0 with probe := ← parseProbe probe }
+      let (t1, mp) ← parseExt t0 ext
+      let t : Tools := { t1 with probe := ← parseProbe probe }
       let pg ← parsePage page
       let (sh, later) ← parseShapes body
       let h : Handler := { shape := sh, later := later, st := ← parseSt st, ct := ← parseCt ct,
                            setCL := ← Proto.optNat? hcl, setStream := ← parseBool hstream }
       let rqs ← (reqs.splitOn ";").mapM parseReq
-      let obs := serveAll (pages pg) ⟨h, t⟩ rqs none 0
+      let obs := serveAll (pages pg mp) ⟨h, t⟩ rqs none 0
       pure (" | ".intercalate (obs.map showObs))
     r.getD "bad-op"
   | _ => "bad-op"
